@@ -101,6 +101,7 @@ type ContractSet struct {
 	Owned     []string
 	Finals    []string
 	Standins  []Standin
+	Locks     []LockDiscipline
 	Files     []string
 	Errors    []string
 }
@@ -140,7 +141,22 @@ func (cs *ContractSet) loadContractFile(path string, pkgPath string) error {
 		return err
 	}
 	cs.Files = append(cs.Files, path)
-	lines := strings.Split(string(data), "\n")
+	return cs.loadContractText(path, pkgPath, string(data))
+}
+
+// LockDiscipline: every method of Type gets a thin, synthesized lock-discipline contract
+// (see Engine.synthLockContracts).
+type LockDiscipline struct {
+	Type  string // pkg.Type
+	Mutex string // mutex field
+	Props []string
+	Held  map[string]bool // methods that are called with the mutex already held
+	Skip  map[string]bool
+	Pkg   string
+}
+
+func (cs *ContractSet) loadContractText(path string, pkgPath string, text string) error {
+	lines := strings.Split(text, "\n")
 	var cur *Contract
 	var lastClause *Clause
 	var lastText *string
@@ -299,6 +315,37 @@ func (cs *ContractSet) loadContractFile(path string, pkgPath string) error {
 			cs.ObjInvs[oi.Type] = append(cs.ObjInvs[oi.Type], oi)
 			cur = nil
 			lastText = &oi.Text
+			continue
+		case "lockdiscipline":
+			// lockdiscipline pkg.Type mutexField props C35 [held: m1, m2] [skip: m3, m4]
+			if len(fields) < 5 || fields[3] != "props" {
+				errf(i, "lockdiscipline pkg.Type mutex props Cxx [held: ...] [skip: ...]")
+				continue
+			}
+			ld := LockDiscipline{Type: fields[1], Mutex: fields[2], Props: splitProps(fields[4]), Held: map[string]bool{}, Skip: map[string]bool{}, Pkg: pkgPath}
+			rest := strings.Join(fields[5:], " ")
+			for _, part := range []struct {
+				tag string
+				m   map[string]bool
+			}{{"held:", ld.Held}, {"skip:", ld.Skip}} {
+				if k := strings.Index(rest, part.tag); k >= 0 {
+					seg := rest[k+len(part.tag):]
+					if e := strings.IndexAny(seg, ":"); e >= 0 {
+						// up to the next tag
+						if sp := strings.LastIndex(seg[:e], " "); sp >= 0 {
+							seg = seg[:sp]
+						}
+					}
+					for _, m := range strings.Split(seg, ",") {
+						if m = strings.TrimSpace(m); m != "" {
+							part.m[m] = true
+						}
+					}
+				}
+			}
+			cs.Locks = append(cs.Locks, ld)
+			cur = nil
+			lastText = nil
 			continue
 		case "standin":
 			// standin <funcref> <pkg dir> <test file under /verif> <TestName>
